@@ -419,6 +419,21 @@ impl ZchState {
                 if self.zchd.zchd_is_altgr_active && !a.zch_output.is_empty() {
                     kb.release_key(OsCode::KEY_RIGHTALT)?;
                 }
+                if common_prefix_len_from_past_activation > 0
+                    && !self.zchd.zchd_is_caps_word_active
+                    && a.zch_output.len() > common_prefix_len_from_past_activation as usize
+                {
+                    // A held shift capitalizes the first character of the output only. That
+                    // character is among the ones kept from the prior activation, so what
+                    // remains to be typed is typed without the held shift.
+                    released_sft = true;
+                    if self.zchd.zchd_is_lsft_active {
+                        kb.release_key(OsCode::KEY_LEFTSHIFT)?;
+                    }
+                    if self.zchd.zchd_is_rsft_active {
+                        kb.release_key(OsCode::KEY_RIGHTSHIFT)?;
+                    }
+                }
                 for key_to_send in a
                     .zch_output
                     .iter()
